@@ -162,11 +162,11 @@ pub fn p_canonization_ind(
     let mut ind = 0;
     for swap in all_swaps {
         swap_adjacent_inplace(num_vars, table, *swap as usize);
+        ind += 1;
         if cmp(table, best).is_lt() {
             best_ind = ind;
             best.clone_from_slice(table);
         }
-        ind += 1
     }
     best_ind
 }
@@ -181,15 +181,18 @@ pub fn n_canonization_ind(
     best.clone_from_slice(table);
     let mut best_ind = 0;
     let mut ind = 0;
-    for flip in all_flips {
-        flip_inplace(num_vars, table, *flip as usize);
+    // An empty list (no variable) still has the two output polarities to visit
+    for i in 0..std::cmp::max(all_flips.len(), 1) {
+        if let Some(flip) = all_flips.get(i) {
+            flip_inplace(num_vars, table, *flip as usize);
+        }
         for _ in 0..2 {
             not_inplace(num_vars, table);
+            ind += 1;
             if cmp(table, best).is_lt() {
                 best_ind = ind;
                 best.clone_from_slice(table);
             }
-            ind += 1;
         }
     }
     best_ind
@@ -205,17 +208,22 @@ pub fn npn_canonization_ind(
     best.clone_from_slice(table);
     let mut best_ind = 0;
     let mut ind = 0;
-    for swap in all_swaps {
-        swap_adjacent_inplace(num_vars, table, *swap as usize);
-        for flip in all_flips {
-            flip_inplace(num_vars, table, *flip as usize);
+    // Empty lists (less than two variables) still have the flips or polarities to visit
+    for i in 0..std::cmp::max(all_swaps.len(), 1) {
+        if let Some(swap) = all_swaps.get(i) {
+            swap_adjacent_inplace(num_vars, table, *swap as usize);
+        }
+        for j in 0..std::cmp::max(all_flips.len(), 1) {
+            if let Some(flip) = all_flips.get(j) {
+                flip_inplace(num_vars, table, *flip as usize);
+            }
             for _ in 0..2 {
                 not_inplace(num_vars, table);
+                ind += 1;
                 if cmp(table, best).is_lt() {
                     best_ind = ind;
                     best.clone_from_slice(table);
                 }
-                ind += 1;
             }
         }
     }
@@ -231,29 +239,33 @@ pub fn p_canonization_res(num_vars: usize, res_perm: &mut [u8], all_swaps: &[u8]
     }
     let mut ind = 0;
     for swap in all_swaps {
-        let swp = *swap as usize;
-        res_perm.swap(swp, swp + 1);
         if ind == best_ind {
             return;
         }
+        let swp = *swap as usize;
+        res_perm.swap(swp, swp + 1);
         ind += 1;
     }
-    // Should never arrive there...
-    panic!();
+    assert_eq!(ind, best_ind);
 }
 
 /// Find the corresponding complementation given the index of the best result
 pub fn n_canonization_res(num_vars: usize, all_flips: &[u8], best_ind: usize) -> u32 {
     let mut ind = 0;
     let mut cur_flip = 0;
-    for flip in all_flips {
-        cur_flip ^= 1 << *flip;
+    if best_ind == 0 {
+        return cur_flip;
+    }
+    for i in 0..std::cmp::max(all_flips.len(), 1) {
+        if let Some(flip) = all_flips.get(i) {
+            cur_flip ^= 1 << *flip;
+        }
         for _ in 0..2 {
             cur_flip ^= 1 << num_vars;
+            ind += 1;
             if ind == best_ind {
                 return cur_flip;
             }
-            ind += 1;
         }
     }
     // Should never arrive there...
@@ -274,26 +286,31 @@ pub fn npn_canonization_res(
     }
     let mut ind = 0;
     let mut cur_flip = 0;
+    if best_ind == 0 {
+        return cur_flip;
+    }
 
-    for swap in all_swaps {
-        let swp = *swap as usize;
-        res_perm.swap(swp, swp + 1);
-        for flip in all_flips {
-            cur_flip ^= 1 << *flip;
+    for i in 0..std::cmp::max(all_swaps.len(), 1) {
+        if let Some(swap) = all_swaps.get(i) {
+            let swp = *swap as usize;
+            res_perm.swap(swp, swp + 1);
+        }
+        for j in 0..std::cmp::max(all_flips.len(), 1) {
+            if let Some(flip) = all_flips.get(j) {
+                cur_flip ^= 1 << *flip;
+            }
             for _ in 0..2 {
                 cur_flip ^= 1 << num_vars;
+                ind += 1;
                 if ind == best_ind {
                     return cur_flip;
                 }
-                ind += 1;
             }
         }
     }
     // Should never arrive there...
     panic!();
 }
-
-// TODO: handle 0 and 1 input cases, where the flip or swap list may be empty
 
 pub fn p_canonization(num_vars: usize, table: &mut [u64], best: &mut [u64], res_perm: &mut [u8]) {
     if num_vars <= 6 {
